@@ -1,8 +1,9 @@
 SPECIFICATION Spec
-CONSTANTS Lines <- Id7  Prog <- ProgLoopSub  BpSets <- Bps2  MaxReq = 3  Deviations <- NoDev  Fuel = 40
+CONSTANTS LibLines <- NoLib  Lines <- Id7  Prog <- ProgLoopSub  BpSets <- Bps2  MaxReq = 3  Deviations <- NoDev  Fuel = 40
 INVARIANT TypeOK
 INVARIANT StoppedIsHalted
 INVARIANT InspectConsistent
 INVARIANT NoSkippedBreakpoint
 INVARIANT NoSkipAfterProbe
 INVARIANT StepExact
+INVARIANT StepEndsTest
